@@ -53,6 +53,8 @@ func LoadPackage(repoDir, pkgPath string, overlay map[string][]byte, tags string
 	prog, pkgs := ssautil.AllPackages(initial, ssa.InstantiateGenerics)
 	n := 0
 	packages.Visit(initial, nil, func(p *packages.Package) { n++ })
-	pkgs[0].Build()
+	// Build every function body before the workers start: lazy building
+	// from several interpreter goroutines would race on Function.Blocks.
+	prog.Build()
 	return &Loaded{Prog: prog, Pkg: pkgs[0], Sizes: initial[0].TypesSizes, NumPkg: n}, nil
 }
